@@ -170,7 +170,12 @@ def job_bv(a):
     t0 = time.time()
     name = f"C16.BernsteinVazirani.secret[{n} bits,s={s},{form}]"
     if form == "secret_oracle":
-        qf, src = secret_oracle(n, s), f"secret_oracle({n}, {s})"
+        src = f"secret_oracle({n}, {s})"
+        try:
+            qf = secret_oracle(n, s)
+        except Exception as ex:  # noqa - "for every secret s": the oracle builder must produce an oracle for each of them
+            return [res(name, REFUTED, strength="bounded", backend="exact-amplitudes", replayed=True,
+                        replay=dict(call=src, observed=f"raises {type(ex).__name__}: {ex}"[:200], expected="an oracle denoting x.s mod 2"))]
     else:
         terms = [bit(n, i) for i in range(n) if (s >> i) & 1]
         src = f"def f({arg_decl(n)}) -> bool:\n\treturn {' ^ '.join(terms) if terms else 'False'}"
